@@ -8,6 +8,12 @@ Import ListNotations.
 Inductive test := TTrue | TFalse | TUnknown.        (* literal truthy / literal falsy / not evaluable *)
 Inductive iter := IEmpty | INonEmpty | IUnknown.    (* literal empty / literal non-empty / not evaluable *)
 
+(* a `match` statement (added for seeded/C01-d): each case is (pattern, guard, body).  The pattern is either
+   opaque (literal / class / sequence ... pattern: may or may not match, independently at each evaluation)
+   or irrefutable (`_` / a capture name); the guard is absent or a test *)
+Inductive pat := PatOpaque | PatWild.
+Inductive mguard := MGNone | MGIf (t : test).
+
 Inductive stmt :=
 | SPass
 | SCall                                   (* expression statement calling something unknown *)
@@ -18,7 +24,8 @@ Inductive stmt :=
 | SFor (it : iter) (body orelse : list stmt)
 | SWith (body : list stmt)
 | STry (body : list stmt) (handlers : list (list stmt)) (orelse final : list stmt)
-| SDef (body : list stmt).                (* nested function / class definition *)
+| SDef (body : list stmt)                 (* nested function / class definition *)
+| SMatch (cases : list (pat * mguard * list stmt)).
 
 Inductive parent := PNone | PFor | PWhile.
 
@@ -33,6 +40,29 @@ Definition is_exception (s : stmt) : bool :=
 Fixpoint may_leave (s : stmt) : bool :=
   let any := fix any (l : list stmt) : bool :=
                match l with [] => false | x :: tl => may_leave x || any tl end in
+  let any2 := fix any2 (l : list (list stmt)) : bool :=
+               match l with [] => false | x :: tl => any x || any2 tl end in
+  (* ast.iter_child_nodes(Match) = subject, cases; of a match_case = pattern, guard, body: only the bodies
+     can hold a break / continue *)
+  let anyc := fix anyc (l : list (pat * mguard * list stmt)) : bool :=
+               match l with [] => false | c :: tl => any (snd c) || anyc tl end in
+  match s with
+  | SBreak | SContinue => true
+  | SDef _ => false
+  | SWhile _ _ orelse => any orelse
+  | SFor _ _ orelse => any orelse
+  | SIf _ body orelse => any body || any orelse
+  | SWith body => any body
+  | STry body hs orelse final => any body || any2 hs || any orelse || any final
+  | SMatch cases => anyc cases
+  | _ => false
+  end.
+
+(* the variant of seeded/C01-d: an iterative walk over the statement-list fields body / handlers / orelse /
+   finalbody only -- Match.cases is not among them (used by the refutation R16.9 only) *)
+Fixpoint may_leave_stmt_lists (s : stmt) : bool :=
+  let any := fix any (l : list stmt) : bool :=
+               match l with [] => false | x :: tl => may_leave_stmt_lists x || any tl end in
   let any2 := fix any2 (l : list (list stmt)) : bool :=
                match l with [] => false | x :: tl => any x || any2 tl end in
   match s with
@@ -74,6 +104,7 @@ Fixpoint is_blocking (s : stmt) (p : parent) : bool :=
          | SFor INonEmpty body _ => scan body PFor false
          | SFor _ _ _ => false
          | SWith body => anyb body p
+         | SMatch _ => false                 (* no clause for ast.Match (nor ast.Try): falls through to `return False` *)
          | _ => false
          end.
 
@@ -115,6 +146,15 @@ Definition o_seq (a b : outs) :=
       (o_b a || (o_n a && o_b b)) (o_c a || (o_n a && o_c b)).
 Definition o_when (c : bool) (a : outs) := if c then a else o_none.
 
+(* does a case apply when it is reached? *)
+Inductive ckind := CAlways | CNever | CMay.
+Definition case_kind (pg : pat * mguard) : ckind :=
+  match pg with
+  | (_, MGIf TFalse) => CNever
+  | (PatWild, MGNone) | (PatWild, MGIf TTrue) => CAlways
+  | _ => CMay
+  end.
+
 Section Sem.
 (* may a context manager swallow an exception raised in its body?  pyrefact assumes it never does *)
 Variable suppress : bool.
@@ -127,6 +167,17 @@ Fixpoint outcomes (s : stmt) : outs :=
                  end in
   let blocks := fix blocks (l : list (list stmt)) : outs :=
                  match l with [] => o_none | x :: tl => o_union (block x) (blocks tl) end in
+  (* the cases are tried in order: a case that surely matches ends the search, one that surely does not is
+     skipped, any other may or may not be taken; no case taken = the statement completes normally *)
+  let cases := fix cases (l : list (pat * mguard * list stmt)) : outs :=
+                 match l with
+                 | [] => mkO true false false false false
+                 | c :: tl => match case_kind (fst c) with
+                              | CAlways => block (snd c)
+                              | CNever => cases tl
+                              | CMay => o_union (block (snd c)) (cases tl)
+                              end
+                 end in
   match s with
   | SPass => mkO true false false false false
   | SCall => mkO true false true false false
@@ -166,6 +217,10 @@ Fixpoint outcomes (s : stmt) : outs :=
                          (o_union (o_when (o_n B) O) (o_when (o_e B) H)) in
       (* the finally clause runs on every path; a non-normal outcome of it replaces the pending one *)
       o_union (o_when (o_n F) pre) (mkO false (o_r F) (o_e F) (o_b F) (o_c F))
+  | SMatch cs =>
+      (* evaluating the subject, a pattern (class patterns call __instancecheck__ / read __match_args__) or
+         a guard may raise *)
+      let C := cases cs in mkO (o_n C) (o_r C) true (o_b C) (o_c C)
   end.
 
 Fixpoint outcomes_block (l : list stmt) : outs :=
